@@ -49,6 +49,13 @@ def shim_programs():
            A.ref('LDAM', 'last'), A.ref('LDBM', 'sp'), A.imm('STAI', 2), A.imm('LDAC', 0), A.imm('STAI', 3), A.imm('LDAC', 1), A.opr('SVC')] + exitv(5) + \
           [A.lab('tab')] + [A.data(0)] * 52000 + [A.lab('last'), A.data(77)]
     out.append(('shim:bigimage', big))
+    # an image larger than 2^19 BYTES (the RTL memory has 2^19 words; both simulators hold it): words just below and above that mark and
+    # the very last word are read
+    huge = [A.ref('BR', 'go'), A.lab('sp'), A.data(199000), A.lab('go'),
+            A.ref('LDAM', 'w1'), A.ref('LDBM', 'w2'), A.opr('ADD'), A.ref('LDBM', 'last'), A.opr('ADD'),
+            A.ref('LDBM', 'sp'), A.imm('STAI', 2), A.imm('LDAC', 0), A.imm('STAI', 3), A.imm('LDAC', 1), A.opr('SVC')] + exitv(6) + \
+           [A.lab('tab')] + [A.data(0)] * 131000 + [A.lab('w1'), A.data(20)] + [A.data(0)] * 150 + [A.lab('w2'), A.data(30)] + [A.data(0)] * 2000 + [A.lab('last'), A.data(27)]
+    out.append(('shim:hugeimage', huge))
     # read from a file stream whose file does not exist (end of file at once): 255
     out.append(('shim:fileeof', head + [A.imm('LDAC', 256), A.ref('LDBM', 'sp'), A.imm('STAI', 2), A.imm('LDAC', 2), A.opr('SVC'), A.ref('LDAM', 'sp'), A.imm('LDAI', 1),
                                         A.ref('LDBM', 'sp'), A.imm('STAI', 2), A.imm('LDAC', 0), A.opr('SVC')]))
